@@ -4,6 +4,7 @@
  *         P8 <bufsize> <qcap> <table> <chunk> ... | <chunk> ...      the same stream in two segmentations
  *         P9 <bufsize> <qcap> <table> <chunkA> ... | <chunkB> ...    B after A  versus  B on a fresh context that
  *                                                                     was given A's registers and error queue
+ *         PU <bufsize> <qcap> <table> <unit1> | <unit2>              unit isolation, three runs (see run_parse)
  *   chunk = hex bytes, "-" = zero-length call (flush)
  *   table = entry;entry;...   entry = <hexpattern>:<tag>:<op>/<op>/...   op = name,arg,arg (see run_op)
  * Observation: event tokens in order; for P8 / P9 the two runs separated by "||".
@@ -95,13 +96,14 @@ static scpi_result_t generic_handler(scpi_t *ctx) {
         } else if (!strcmp(o->name, "rB")) SCPI_ResultBool(ctx, o->a[0] ? TRUE : FALSE);
         else if (!strcmp(o->name, "rT")) { o->data[o->dlen] = 0; SCPI_ResultText(ctx, (char *) o->data); }
         else if (!strcmp(o->name, "rC")) SCPI_ResultCharacters(ctx, (char *) o->data, o->dlen);
-        else if (!strcmp(o->name, "rK")) SCPI_ResultArbitraryBlock(ctx, o->data, o->dlen);
+        else if (!strcmp(o->name, "rK")) SCPI_ResultArbitraryBlock(ctx, o->isnull ? NULL : o->data, o->isnull ? 0 : o->dlen);   /* "N": an empty block held by a NULL pointer */
         else if (!strcmp(o->name, "rKH")) SCPI_ResultArbitraryBlockHeader(ctx, (size_t) o->a[0]);
-        else if (!strcmp(o->name, "rKD")) SCPI_ResultArbitraryBlockData(ctx, o->data, o->dlen);
+        else if (!strcmp(o->name, "rKD")) SCPI_ResultArbitraryBlockData(ctx, o->isnull ? NULL : o->data, o->isnull ? 0 : o->dlen);
         else if (!strcmp(o->name, "rA")) {
             /* elements given big-endian; build the native array */
             size_t sz = (size_t) o->a[0], cnt = sz ? o->dlen / sz : 0, k, j; scpi_array_format_t fmt = o->a[1] ? SCPI_FORMAT_SWAPPED : SCPI_FORMAT_NORMAL;
-            unsigned char *arr = (unsigned char *) malloc(o->dlen ? o->dlen : 1);
+            unsigned char *arr = o->isnull ? NULL : (unsigned char *) malloc(o->dlen ? o->dlen : 1);     /* "N": an empty array held by a NULL pointer */
+            if (o->isnull) cnt = 0;
             for (k = 0; k < cnt; k++) { uint64_t v = 0; for (j = 0; j < sz; j++) v = (v << 8) | o->data[k * sz + j]; memcpy(arr + k * sz, &v, sz); /* little-endian host */ }
             if (sz == 1) SCPI_ResultArrayUInt8(ctx, arr, cnt, fmt); else if (sz == 2) SCPI_ResultArrayUInt16(ctx, (uint16_t *) arr, cnt, fmt);
             else if (sz == 4) SCPI_ResultArrayUInt32(ctx, (uint32_t *) arr, cnt, fmt); else SCPI_ResultArrayUInt64(ctx, (uint64_t *) arr, cnt, fmt);
@@ -193,12 +195,38 @@ static void finish(h_env_t *e) {
     if (first) fprintf(EV, "-");
 }
 
+/* dst := a fresh context that is given src's registers and src's queue content and nothing else: every other field keeps
+ * the value SCPI_Init gave it (the pushes that rebuild the queue are undone for everything but the queue); src is not touched */
+static void seed_fresh(h_env_t *dst, h_env_t *src, table_t *t, int bufsize, int qcap) {
+    int k; scpi_t snap;
+    h_env_init(dst, t->table, (size_t) bufsize, qcap, 64); dst->iface.error = NULL;
+    snap = dst->ctx;
+    for (k = 0; k < src->ctx.error_queue.count; k++) {
+        scpi_error_t *qe = &src->ctx.error_queue.data[(src->ctx.error_queue.rd + k) % src->ctx.error_queue.size];
+        char *txt = NULL;
+#if USE_DEVICE_DEPENDENT_ERROR_INFORMATION
+        txt = qe->device_dependent_info;
+#endif
+        SCPI_ErrorPushEx(&dst->ctx, qe->error_code, txt, 0);
+    }
+    { scpi_fifo_t qkeep = dst->ctx.error_queue;
+#if USE_DEVICE_DEPENDENT_ERROR_INFORMATION && !USE_MEMORY_ALLOCATION_FREE
+      scpi_error_info_heap_t hkeep = dst->ctx.error_info_heap;
+#endif
+      dst->ctx = snap; dst->ctx.error_queue = qkeep;
+#if USE_DEVICE_DEPENDENT_ERROR_INFORMATION && !USE_MEMORY_ALLOCATION_FREE
+      dst->ctx.error_info_heap = hkeep;
+#endif
+    }
+    for (k = 0; k < SCPI_REG_COUNT; k++) dst->ctx.registers[k] = src->ctx.registers[k];
+}
+
 void run_parse(const char *input) {
     char *copy = strdup(input), *tok, *save = NULL; int mode = 0, bufsize, qcap; table_t *t = (table_t *) calloc(1, sizeof *t);
     h_env_t e1, e2; static char *chunksA[8192], *chunksB[8192]; int na = 0, nb = 0, second = 0, i;
     h_set_case("%s", input);
     tok = strtok_r(copy, " ", &save);
-    if (!strcmp(tok, "P8")) mode = 8; else if (!strcmp(tok, "P9")) mode = 9;
+    if (!strcmp(tok, "P8")) mode = 8; else if (!strcmp(tok, "P9")) mode = 9; else if (!strcmp(tok, "PU")) mode = 10;
     tok = strtok_r(NULL, " ", &save); bufsize = tok ? atoi(tok) : 64;
     tok = strtok_r(NULL, " ", &save); qcap = tok ? atoi(tok) : 4;
     tok = strtok_r(NULL, " ", &save); parse_table(tok ? tok : "", t);
@@ -221,36 +249,37 @@ void run_parse(const char *input) {
         for (i = 0; i < nb; i++) feed(&e2, chunksB[i]);
         finish(&e2);
         h_env_free(&e2);
+    } else if (mode == 10) {
+        /* unit isolation.  PU <buf> <qcap> <table> <unit1 hex> | <unit2 hex>   (unit 2 has an absolute or common header)
+         *   run 1: "unit1;unit2<NL>" as ONE message on a fresh context
+         *   run 2: "unit1<NL>" on a fresh context
+         *   run 3: "unit2<NL>" on a fresh context that was given the registers and queue content run 2 ended with
+         * what unit 2 does in run 1 must be what it does in run 3 */
+        h_env_t e3; static char m[40000];
+        if (na >= 1 && nb >= 1 && strlen(chunksA[0]) + strlen(chunksB[0]) + 8 < sizeof m) {
+            sprintf(m, "%s3b%s0a", strcmp(chunksA[0], "-") ? chunksA[0] : "", strcmp(chunksB[0], "-") ? chunksB[0] : "");
+            feed(&e1, m); finish(&e1);
+            fprintf(EV, " ||");
+            h_env_init(&e3, t->table, (size_t) bufsize, qcap, 64); e3.iface.error = cb_error_ev;
+            sprintf(m, "%s0a", strcmp(chunksA[0], "-") ? chunksA[0] : "");
+            feed(&e3, m);
+            seed_fresh(&e2, &e3, t, bufsize, qcap);
+            finish(&e3); h_env_free(&e3);
+            fprintf(EV, " ||");
+            e2.iface.error = cb_error_ev;
+            sprintf(m, "%s0a", strcmp(chunksB[0], "-") ? chunksB[0] : "");
+            feed(&e2, m); finish(&e2);
+            h_env_free(&e2);
+        }
     } else {
         /* A on context 1, which is then left exactly as A left it (only its unterminated input tail is dropped);
          * context 2 is a fresh context given A's registers and A's queue content and nothing else: every other field
          * keeps the value SCPI_Init gave it (the pushes that rebuild the queue are undone for everything but the queue) */
-        scpi_reg_val_t regs[SCPI_REG_COUNT]; int k; FILE *keep; scpi_t snap;
-        char *junk; size_t junklen;
+        FILE *keep; char *junk; size_t junklen;
         keep = EV; EV = open_memstream(&junk, &junklen);          /* A's own events are not part of the comparison */
         for (i = 0; i < na; i++) feed(&e1, chunksA[i]);
         fclose(EV); free(junk); EV = keep;
-        for (k = 0; k < SCPI_REG_COUNT; k++) regs[k] = e1.ctx.registers[k];
-        h_env_init(&e2, t->table, (size_t) bufsize, qcap, 64); e2.iface.error = NULL;
-        snap = e2.ctx;
-        for (k = 0; k < e1.ctx.error_queue.count; k++) {
-            scpi_error_t *qe = &e1.ctx.error_queue.data[(e1.ctx.error_queue.rd + k) % e1.ctx.error_queue.size];
-            char *txt = NULL;
-#if USE_DEVICE_DEPENDENT_ERROR_INFORMATION
-            txt = qe->device_dependent_info;
-#endif
-            SCPI_ErrorPushEx(&e2.ctx, qe->error_code, txt, 0);
-        }
-        { scpi_fifo_t qkeep = e2.ctx.error_queue;
-#if USE_DEVICE_DEPENDENT_ERROR_INFORMATION && !USE_MEMORY_ALLOCATION_FREE
-          scpi_error_info_heap_t hkeep = e2.ctx.error_info_heap;
-#endif
-          e2.ctx = snap; e2.ctx.error_queue = qkeep;
-#if USE_DEVICE_DEPENDENT_ERROR_INFORMATION && !USE_MEMORY_ALLOCATION_FREE
-          e2.ctx.error_info_heap = hkeep;
-#endif
-        }
-        for (k = 0; k < SCPI_REG_COUNT; k++) e2.ctx.registers[k] = regs[k];
+        seed_fresh(&e2, &e1, t, bufsize, qcap);
         /* pending input of A (an unterminated tail) is part of the stream, not of the persistent state: drop it on both */
         e1.ctx.buffer.position = 0;
         e1.iface.error = cb_error_ev; e2.iface.error = cb_error_ev;
